@@ -231,6 +231,29 @@ Proof.
     repeat split; try assumption. exists (S k). rewrite K. cbn [pow]. ring.
   - injection H as <- <- <-. repeat split; [assumption|lra|assumption|]. exists 0%nat. cbn [pow]. ring.
 Qed.
+
+(** exact evaluation: the bracket is found at the FIRST k for which the LHS at tmin M^(k+1) is
+    not negative (k <= 100 enlargements are allowed) *)
+Lemma loop_eval : forall (k fuel : nat) a b i,
+  b = a * M -> (k < fuel)%nat -> i + INR k <= 101 ->
+  (forall j, (j < k)%nat -> F (b * M ^ j) < 0) -> ~ F (b * M ^ k) < 0 ->
+  loop fuel a b i = Some (inr (a * M ^ k, b * M ^ k, i + INR k)).
+Proof.
+  induction k as [|k IH]; intros fuel a b i Hb Hf Hi Hneg Hpos.
+  - destruct fuel as [|fuel]; [lia|]. rewrite loop_S. cbn [pow INR] in *.
+    replace (b * 1) with b in Hpos by ring.
+    destruct (Rlt_dec (F b) 0); [contradiction|]. rewrite !Rmult_1_r, Rplus_0_r. reflexivity.
+  - destruct fuel as [|fuel]; [lia|]. rewrite loop_S.
+    assert (H0 : F b < 0). { specialize (Hneg 0%nat). cbn [pow] in Hneg. replace (b * 1) with b in Hneg by ring. apply Hneg. lia. }
+    destruct (Rlt_dec (F b) 0); [|contradiction].
+    rewrite S_INR in Hi. pose proof (pos_INR k).
+    destruct (Rlt_dec 100 i); [lra|].
+    rewrite (IH fuel (a * M) (b * M) (i + 1)); [ | rewrite Hb; ring | lia | lra | | ].
+    + rewrite S_INR. cbn [pow]. replace (a * M * M ^ k) with (a * (M * M ^ k)) by ring.
+      replace (b * M * M ^ k) with (b * (M * M ^ k)) by ring. replace (i + 1 + INR k) with (i + (INR k + 1)) by ring. reflexivity.
+    + intros j Hj. replace (b * M * M ^ j) with (b * M ^ (S j)) by (cbn [pow]; ring). apply Hneg. lia.
+    + replace (b * M * M ^ k) with (b * M ^ (S k)) by (cbn [pow]; ring). exact Hpos.
+Qed.
 End Loop.
 
 (** ** the whole of findPlasmaProfilePoint *)
@@ -296,6 +319,45 @@ Proof.
       eexists; eexists; split; [reflexivity|].
       apply (bracketed_root _ _ false a b k); try assumption; reflexivity.
     + exfalso. apply Hterm; [lra | replace (INR 200) with 200 by (simpl; lra); lra | reflexivity].
+Qed.
+
+(** exact evaluation of the whole method (used by the certified correspondence and a theorem in its
+    own right): which value is returned, as a function of the oracle outputs *)
+Lemma point_eval_early :
+  0 <= F tmin ->
+  findPlasmaProfilePoint e index c1 c2 velocityMid fields dPhidz D Tplus Tminus
+  = Some (tmin, plasmaVelocity e fields tmin s1).
+Proof.
+  intro Hpos. unfold findPlasmaProfilePoint. rewrite let_pair. cbv zeta.
+  change (c1 - fst (deltaToTmunu e index fields velocityMid D)) with s1.
+  change (c2 - snd (deltaToTmunu e index fields velocityMid D)) with s2.
+  change (fun T : R => temperatureProfileEqLHS e fields dPhidz T s1 s2) with F.
+  change (minimize_bounded e F 0 (2 * Rmax Tplus Tminus)) with tmin.
+  change (temperatureProfileEqLHS e fields dPhidz tmin s1 s2) with (F tmin).
+  destruct (Rle_dec 0 (F tmin)); [reflexivity|contradiction].
+Qed.
+
+Lemma point_eval_root (det : bool) (k : nat) :
+  F tmin < 0 -> (if det then detonation else ~ detonation) -> (k <= 100)%nat ->
+  let M := multiplier det in
+  (forall j, (j < k)%nat -> F (tmin * M * M ^ j) < 0) -> 0 <= F (tmin * M * M ^ k) ->
+  findPlasmaProfilePoint e index c1 c2 velocityMid fields dPhidz D Tplus Tminus
+  = Some (root_bracketed e F (tmin * M ^ k) (tmin * M * M ^ k),
+          plasmaVelocity e fields (root_bracketed e F (tmin * M ^ k) (tmin * M * M ^ k)) s1).
+Proof.
+  intros Hneg Hdet Hk M Hj Hpos. unfold findPlasmaProfilePoint. rewrite let_pair. cbv zeta.
+  change (c1 - fst (deltaToTmunu e index fields velocityMid D)) with s1.
+  change (c2 - snd (deltaToTmunu e index fields velocityMid D)) with s2.
+  change (fun T : R => temperatureProfileEqLHS e fields dPhidz T s1 s2) with F.
+  change (minimize_bounded e F 0 (2 * Rmax Tplus Tminus)) with tmin.
+  change (temperatureProfileEqLHS e fields dPhidz tmin s1 s2) with (F tmin).
+  destruct (Rle_dec 0 (F tmin)); [lra|].
+  assert (Hi : 0 + INR k <= 101). { apply le_INR in Hk. replace (INR 100) with 100 in Hk by (simpl; lra). lra. }
+  assert (Hp : ~ F (tmin * M * M ^ k) < 0) by lra.
+  destruct (Rlt_dec (Rabs (Tnucl e - Tplus)) (1 / 10000000000)) as [Hd|Hd]; destruct det; cbn [multiplier] in *;
+    try (exfalso; unfold detonation in Hdet; replace (1 / 10 ^ 10) with (1 / 10000000000) in Hdet by lra; tauto).
+  - rewrite (loop_eval e fields dPhidz s1 s2 _ k 200 tmin _ 0 eq_refl); [reflexivity | lia | exact Hi | exact Hj | exact Hp].
+  - rewrite (loop_eval e fields dPhidz s1 s2 _ k 200 tmin _ 0 eq_refl); [reflexivity | lia | exact Hi | exact Hj | exact Hp].
 Qed.
 
 (** contract assumed of scipy's bracketed root finder (validated by the harness on every point):
@@ -503,6 +565,35 @@ Theorem branch_rule : forall e index c1 c2 velocityMid fields dPhidz D Tplus Tmi
   (Rabs (Tnucl e - Tplus) < 1 / 10 ^ 10 -> 0 < T <= tmin).
 Proof. intros e index c1 c2 velocityMid fields dPhidz D Tplus Tminus T v. exact (point_branch e index c1 c2 velocityMid fields dPhidz D Tplus Tminus T v). Qed.
 Print Assumptions branch_rule.
+
+(** the bracket handed to the root finder is the FIRST sign change in the geometric sequence
+    tmin M, tmin M^2, ... (M from the branch rule); exact value of the result in terms of the oracles *)
+Theorem bracket_is_first_sign_change : forall e index c1 c2 velocityMid fields dPhidz D Tplus Tminus (det : bool) (k : nat),
+  let Tout30 := fst (deltaToTmunu e index fields velocityMid D) in
+  let Tout33 := snd (deltaToTmunu e index fields velocityMid D) in
+  let F := fun T : R => temperatureProfileEqLHS e fields dPhidz T (c1 - Tout30) (c2 - Tout33) in
+  let tmin := minimize_bounded e F 0 (2 * Rmax Tplus Tminus) in
+  let M := if det then Rmin (Tminus / tmin) (4 / 5) else Rmax (Tplus / tmin) (6 / 5) in
+  F tmin < 0 ->
+  (if det then Rabs (Tnucl e - Tplus) < 1 / 10 ^ 10 else ~ Rabs (Tnucl e - Tplus) < 1 / 10 ^ 10) ->
+  (k <= 100)%nat ->
+  (forall j, (j < k)%nat -> F (tmin * M * M ^ j) < 0) -> 0 <= F (tmin * M * M ^ k) ->
+  findPlasmaProfilePoint e index c1 c2 velocityMid fields dPhidz D Tplus Tminus
+  = Some (root_bracketed e F (tmin * M ^ k) (tmin * M * M ^ k),
+          plasmaVelocity e fields (root_bracketed e F (tmin * M ^ k) (tmin * M * M ^ k)) (c1 - Tout30)).
+Proof. intros e index c1 c2 velocityMid fields dPhidz D Tplus Tminus det k. exact (point_eval_root e index c1 c2 velocityMid fields dPhidz D Tplus Tminus det k). Qed.
+Print Assumptions bracket_is_first_sign_change.
+
+Theorem no_root_returns_minimum : forall e index c1 c2 velocityMid fields dPhidz D Tplus Tminus,
+  let Tout30 := fst (deltaToTmunu e index fields velocityMid D) in
+  let Tout33 := snd (deltaToTmunu e index fields velocityMid D) in
+  let F := fun T : R => temperatureProfileEqLHS e fields dPhidz T (c1 - Tout30) (c2 - Tout33) in
+  let tmin := minimize_bounded e F 0 (2 * Rmax Tplus Tminus) in
+  0 <= F tmin ->
+  findPlasmaProfilePoint e index c1 c2 velocityMid fields dPhidz D Tplus Tminus
+  = Some (tmin, plasmaVelocity e fields tmin (c1 - Tout30)).
+Proof. intros e index c1 c2 velocityMid fields dPhidz D Tplus Tminus. exact (point_eval_early e index c1 c2 velocityMid fields dPhidz D Tplus Tminus). Qed.
+Print Assumptions no_root_returns_minimum.
 
 (** non-vacuity: an ideal gas (V = -a T^4, w = 4 a T^4) with one particle satisfies the hypotheses
     of the conservation theorems at T = 1, s1 = -1 *)
